@@ -20,6 +20,8 @@ import PygProofs.Lemmas.DRangeMonth
 import PygProofs.Lemmas.DRangeBump
 import PygProofs.Lemmas.DRangeBday
 import PygProofs.Props.C09
+import PygModel.DateRange
+import PygProofs.Lemmas.ResDec
 
 namespace Pyg.Props.C10
 open Pyg Pyg.DRange
@@ -1420,5 +1422,145 @@ OverflowError on the real code) -/
 example : (Bump.MAXUS - 7 * DAY) + DAY * 7 = Bump.MAXUS ∧
     drange (Bump.MAXUS - 7 * DAY) (Bump.MAXUS - DAY) (.td DAY) = .ok [Bump.MAXUS - 7 * DAY, Bump.MAXUS - 6 * DAY,
       Bump.MAXUS - 5 * DAY, Bump.MAXUS - 4 * DAY, Bump.MAXUS - 3 * DAY, Bump.MAXUS - 2 * DAY, Bump.MAXUS - DAY] := ⟨by decide, by rfl⟩
+
+/-! ### round k3: `date_range`, the endpoint resolution `drange` begins with (anchor _drange.py:210-264; model PygModel/DateRange.lean)
+
+An endpoint is `None`, a bump or a date.  The theorems say, through the returned PAIR, which instant each endpoint denotes: a bump
+at the END is applied to the START when that is a date and to today otherwise; a bump at the START is applied to the END when that is
+a date and to today otherwise; only an open end (`t1 = None`) sorts the pair; `today` matters exactly when one of these rules names it.
+`bumpOne` is the C09 model of a single `dt_bump` argument. -/
+
+open Pyg.DateRange Pyg.Bump in
+/-- two dates: the pair AS GIVEN (not sorted: `drange` decides the direction from it), whatever today is -/
+theorem dateRange_dates (today a b : Int) : dateRange today (.date a) (.date b) = .ok (a, b) := rfl
+
+open Pyg.DateRange Pyg.Bump in
+/-- … so `drange(t0, t1, bump)` with two dates is the enumeration from these instants: all the `drange` theorems of this file are
+about the function the caller calls -/
+theorem drangeE_dates (today a b : Int) (bump : DRange.Bump) : drangeE today (.date a) (.date b) bump = drange a b bump := rfl
+
+open Pyg.DateRange Pyg.Bump in
+/-- a date and a bump (`drange(2000, '10b', ..)`): the range runs from the date to the bump applied TO THE DATE, whatever today is -/
+theorem dateRange_date_bump (today t0 : Int) (b : BumpArg) (p : Int × Int) :
+    dateRange today (.date t0) (.bump b) = .ok p ↔ p.1 = t0 ∧ bumpOne t0 b = .ok p.2 := by
+  unfold dateRange
+  simp only []
+  rw [C09.dtBump_single]
+  cases h : bumpOne t0 b with
+  | error e => simp [Except.map]
+  | ok r =>
+    simp only [Except.map, Except.ok.injEq]
+    constructor
+    · intro h; subst h; exact ⟨rfl, rfl⟩
+    · intro ⟨h1, h2⟩; cases p; simp_all
+
+open Pyg.DateRange Pyg.Bump in
+/-- a bump and a date (`drange('-10b', t1, ..)`): the range runs from the bump applied TO THE END DATE to that date -/
+theorem dateRange_bump_date (today t1 : Int) (b : BumpArg) (p : Int × Int) :
+    dateRange today (.bump b) (.date t1) = .ok p ↔ bumpOne t1 b = .ok p.1 ∧ p.2 = t1 := by
+  unfold dateRange
+  simp only []
+  rw [C09.dtBump_single]
+  cases h : bumpOne t1 b with
+  | error e => simp [Except.map]
+  | ok r =>
+    simp only [Except.map, Except.ok.injEq]
+    constructor
+    · intro h; subst h; exact ⟨rfl, rfl⟩
+    · intro ⟨h1, h2⟩; cases p; simp_all
+
+open Pyg.DateRange Pyg.Bump in
+/-- two bumps (`drange('-10b', '10b', ..)`): both applied to today, the pair not sorted -/
+theorem dateRange_bump_bump (today : Int) (b0 b1 : BumpArg) (p : Int × Int) :
+    dateRange today (.bump b0) (.bump b1) = .ok p ↔ bumpOne today b0 = .ok p.1 ∧ bumpOne today b1 = .ok p.2 := by
+  unfold dateRange
+  simp only []
+  rw [C09.dtBump_single, C09.dtBump_single]
+  cases h0 : bumpOne today b0 with
+  | error e => simp [Except.bind]
+  | ok r0 =>
+    cases h1 : bumpOne today b1 with
+    | error e => simp [Except.bind, Except.map]
+    | ok r1 =>
+      simp only [Except.bind, Except.map, Except.ok.injEq]
+      constructor
+      · intro h; subst h; exact ⟨rfl, rfl⟩
+      · intro ⟨h1, h2⟩; cases p; simp_all
+
+open Pyg.DateRange Pyg.Bump in
+/-- the docstring's `date_range(-100, 100) == [dt_bump(t, -100), dt_bump(t, 100)]`: integers below 1500 are day offsets from today -/
+theorem dateRange_int_int (today m n : Int) (hm : 0 ≤ today + m * DAYUS ∧ today + m * DAYUS < MAXUS)
+    (hn : 0 ≤ today + n * DAYUS ∧ today + n * DAYUS < MAXUS) :
+    dateRange today (.bump (.int m)) (.bump (.int n)) = .ok (today + m * DAYUS, today + n * DAYUS) := by
+  rw [dateRange_bump_bump]
+  simp only [bumpOne]
+  exact ⟨(checkRange_ok _ _).2 ⟨hm, rfl⟩, (checkRange_ok _ _).2 ⟨hn, rfl⟩⟩
+
+open Pyg.DateRange Pyg.Bump in
+/-- an open end (`t1 = None`): one member of the pair is today, the other is `TMIN` (no start either), the date, or the bump applied to
+today; with a start the pair is SORTED as `(min, max)` (so `drange(-10)` and `drange(10)` both run forward) -/
+theorem dateRange_open_end (today : Int) (e0 : Endpoint) (p : Int × Int) (h : dateRange today e0 .none = .ok p) :
+    match e0 with
+    | .none => p = (TMINUS, today)
+    | .date t0 => p = (min today t0, max today t0)
+    | .bump b0 => ∃ r, bumpOne today b0 = .ok r ∧ p = (min today r, max today r) := by
+  cases e0 with
+  | none => simp only [dateRange] at h; cases h; rfl
+  | date t0 =>
+    simp only [dateRange, sorted2] at h
+    split at h <;> cases h <;> simp only [Prod.mk.injEq] <;> omega
+  | bump b0 =>
+    simp only [dateRange] at h
+    rw [C09.dtBump_single] at h
+    cases hb : bumpOne today b0 with
+    | error e => rw [hb] at h; cases h
+    | ok r =>
+      rw [hb] at h
+      simp only [Except.map, sorted2] at h
+      split at h <;> cases h <;> refine ⟨r, hb, ?_⟩ <;> simp only [Prod.mk.injEq] <;> omega
+
+open Pyg.DateRange Pyg.Bump in
+/-- … hence ordered, with today as one end, whenever a start is given or today is not before 1900 -/
+theorem dateRange_open_end_sorted (today : Int) (e0 : Endpoint) (p : Int × Int) (h : dateRange today e0 .none = .ok p)
+    (hs : e0 ≠ .none ∨ TMINUS ≤ today) : p.1 ≤ p.2 ∧ (p.1 = today ∨ p.2 = today) := by
+  have h' := dateRange_open_end today e0 p h
+  cases e0 with
+  | none =>
+    simp only at h'; subst h'
+    rcases hs with hs | hs
+    · exact absurd rfl hs
+    · exact ⟨hs, Or.inr rfl⟩
+  | date t0 => simp only at h'; subst h'; simp only; omega
+  | bump b0 => obtain ⟨r, _, rfl⟩ := h'; simp only; omega
+
+open Pyg.DateRange Pyg.Bump in
+/-- `today` matters only where the rules above name it: with an end DATE, or with a start date and an end bump, the range is the same
+on every day it is asked for -/
+theorem dateRange_today_irrelevant (today today' : Int) (e0 e1 : Endpoint)
+    (h : (∃ t1, e1 = .date t1) ∨ ((∃ b1, e1 = .bump b1) ∧ ∃ t0, e0 = .date t0)) :
+    dateRange today e0 e1 = dateRange today' e0 e1 := by
+  rcases h with ⟨t1, rfl⟩ | ⟨⟨b1, rfl⟩, ⟨t0, rfl⟩⟩
+  · cases e0 <;> rfl
+  · rfl
+
+open Pyg.DateRange Pyg.Bump in
+/-- `date_range` fails only when a bump does (an instant outside years 1..9999, a malformed text): dates and `None` always resolve -/
+theorem dateRange_total_dates (today : Int) (e0 e1 : Endpoint) (h0 : ∀ b, e0 ≠ .bump b) (h1 : ∀ b, e1 ≠ .bump b) :
+    ∃ p, dateRange today e0 e1 = .ok p := by
+  cases e0 with
+  | bump b => exact absurd rfl (h0 b)
+  | none => cases e1 with
+    | bump b => exact absurd rfl (h1 b)
+    | none => exact ⟨_, rfl⟩
+    | date t => exact ⟨_, rfl⟩
+  | date t0 => cases e1 with
+    | bump b => exact absurd rfl (h1 b)
+    | none => exact ⟨_, rfl⟩
+    | date t => exact ⟨_, rfl⟩
+
+open Pyg.DateRange Pyg.Bump in
+/-- the docstring's own examples: `date_range(2000, '10b') == [dt(2000,1,1), dt(2000,1,17)]` on any day, and
+`drange(2000, '10b', '1b')` = the eleven weekdays of 3 … 17 January 2000 (1 January 2000 is a Saturday) -/
+example : dateRange 0 (.date (mkDate 2000 1 1)) (.bump (.str "10b")) = .ok (mkDate 2000 1 1, mkDate 2000 1 17) := by decide +kernel
 
 end Pyg.Props.C10
